@@ -392,7 +392,103 @@ const F32S: &[f32] = &[
 ];
 const F64S: &[f64] = &[0.0, -0.0, 1.0, 1.5, -2.5, 0.1, 1e300, 5e-324, 1.7976931348623157e308, 2.2250738585072014e-308, 9007199254740993.0, 1e21, 1e-7, 123456789.123456789, f64::INFINITY, f64::NEG_INFINITY];
 
+/// "Magic" values: constants a future edit may special-case ("skip when equal to the default").
+/// The driver harvests every short printable string literal and every numeric literal of
+/// norad's source at run time (`--magic FILE`); the fixed lists below are always added.
+const FIXED_MAGIC_S: &[&str] = &[
+    "public.default", "public.background", "glyphs", "glyphs.", "public.objectLibs", "public.kern1.", "public.kern2.",
+    "com.", "foreground", "background", "", "0", "1", "-1", "true", "false", "yes", "no", "first", "last", "none", "None",
+    "null", "nan", "NaN", "inf", "-inf", "regular", "italic", "bold", "bold italic", "Regular", "Bold", "default",
+    "wght", "wdth", "opsz", "ital", "slnt", "Weight", "Width", "weight", "width", "lib", "dict", "key", "string", "name",
+    "location", "dimension", "xvalue", "uservalue", ".notdef", "space", "a", "A", "x", "ufo", ".ufo", "master", "copy",
+    "4", "4.0", "4.1", "5", "5.0", "400", "1000",
+];
+const FIXED_MAGIC_N: &[f32] = &[
+    0.0, 1.0, -1.0, 2.0, 3.0, 4.0, 4.1, 5.0, 5.1, 10.0, 50.0, 100.0, 200.0, 300.0, 400.0, 500.0, 600.0, 700.0, 800.0,
+    900.0, 1000.0, 2048.0, 0.5, 0.25, 0.1, 360.0, 255.0, 256.0, 65535.0, 65536.0, 1e-6, 1e6,
+];
+#[derive(Default)]
+struct Magic {
+    s: Vec<String>,
+    n: Vec<f32>,
+}
+fn legal_magic(s: &str) -> bool {
+    // stay outside the reader classes: no control characters, tab, LF, CR, non-characters
+    s.len() <= 60 && !forbidden(s) && !s.contains(['\t', '\n', '\r'])
+}
+impl Magic {
+    fn load(path: Option<&String>) -> Magic {
+        let mut m = Magic::default();
+        for x in FIXED_MAGIC_S {
+            m.s.push(x.to_string());
+        }
+        m.n.extend_from_slice(FIXED_MAGIC_N);
+        if let Some(p) = path {
+            if let Ok(text) = std::fs::read_to_string(p) {
+                if let Ok(j) = serde_json::from_str::<J>(&text) {
+                    for x in j["strings"].as_array().into_iter().flatten() {
+                        if let Some(t) = x.as_str() {
+                            if legal_magic(t) && !m.s.iter().any(|y| y == t) {
+                                m.s.push(t.to_string());
+                            }
+                        }
+                    }
+                    for x in j["numbers"].as_array().into_iter().flatten() {
+                        if let Some(t) = x.as_str().and_then(|t| t.parse::<f32>().ok()) {
+                            if t.is_finite() && !m.n.iter().any(|y| y.to_bits() == t.to_bits()) {
+                                m.n.push(t);
+                            }
+                        }
+                    }
+                }
+            }
+        }
+        let neg: Vec<f32> = m.n.iter().filter(|x| **x != 0.0).map(|x| -*x).collect();
+        for x in neg {
+            if !m.n.iter().any(|y| y.to_bits() == x.to_bits()) {
+                m.n.push(x);
+            }
+        }
+        m
+    }
+}
+
+/// one document in which every string-valued field holds `m` (every optional one `Some(m)`) and
+/// one in which every number holds `x`: a special case keyed on one field and one constant shows
+fn sweep_doc(m: &str, x: f32) -> DesignSpaceDocument {
+    let s = || m.to_string();
+    let o = || Some(m.to_string());
+    let nm = || Name::new(m).unwrap_or_else(|_| Name::new("a").unwrap());
+    let dim = || Dimension { name: s(), uservalue: Some(x), xvalue: Some(x), yvalue: Some(x) };
+    let mut d = DesignSpaceDocument::default();
+    d.format = x;
+    d.axes.push(Axis { name: s(), tag: s(), default: x, hidden: false, minimum: Some(x), maximum: Some(x), values: None,
+                       map: Some(vec![AxisMapping { input: x, output: x }]) });
+    d.axes.push(Axis { name: s(), tag: s(), default: x, hidden: true, minimum: None, maximum: None, values: Some(vec![x, x]), map: None });
+    d.rules.processing = RuleProcessing::Last;
+    d.rules.rules.push(Rule {
+        name: o(),
+        condition_sets: vec![ConditionSet { conditions: vec![Condition { name: s(), minimum: Some(x), maximum: Some(x) }] }],
+        substitutions: vec![Substitution { name: nm(), with: nm() }],
+    });
+    d.sources.push(Source { familyname: o(), stylename: o(), name: o(), filename: s(), layer: o(), location: vec![dim()] });
+    let mut lib = Dictionary::new();
+    if !edge_ws(m) {
+        lib.insert(s(), Value::String(s()));
+        lib.insert("k".into(), Value::Array(vec![Value::String(s())]));
+    }
+    lib.insert("r".into(), Value::Real(x as f64));
+    if x.fract() == 0.0 && x.abs() < 1e15 {
+        lib.insert("i".into(), Value::Integer((x as i64).into()));
+    }
+    d.instances.push(Instance { familyname: o(), stylename: o(), name: o(), filename: o(), postscriptfontname: o(),
+                                stylemapfamilyname: o(), stylemapstylename: o(), location: vec![dim()], lib: lib.clone() });
+    d.lib = lib;
+    d
+}
+
 struct G {
+    magic: std::rc::Rc<Magic>,
     rng: Rng,
     /// bit 1: lib strings/keys with leading/trailing white space; bit 2: tab/LF/CR in attribute
     /// strings and CR in lib strings; bit 4: characters XML cannot express
@@ -401,6 +497,10 @@ struct G {
 }
 impl G {
     fn attr_s(&mut self) -> String {
+        if self.rng.chance(1, 7) {
+            let m = self.magic.clone();
+            return self.rng.pick(&m.s).clone();
+        }
         if self.wild & 2 != 0 && self.rng.chance(1, 8) {
             self.rng.pick(ATTR_NORM).to_string()
         } else if self.wild & 4 != 0 && self.rng.chance(1, 10) {
@@ -412,6 +512,13 @@ impl G {
         }
     }
     fn lib_s(&mut self) -> String {
+        if self.rng.chance(1, 7) {
+            let m = self.magic.clone();
+            let t = self.rng.pick(&m.s).clone();
+            if self.wild & 1 != 0 || !edge_ws(&t) {
+                return t;
+            }
+        }
         if self.wild & 1 != 0 && self.rng.chance(1, 4) {
             self.rng.pick(LIB_TRIM).to_string()
         } else if self.wild & 2 != 0 && self.rng.chance(1, 5) {
@@ -447,6 +554,10 @@ impl G {
         }
     }
     fn f32v(&mut self) -> f32 {
+        if self.rng.chance(1, 6) {
+            let m = self.magic.clone();
+            return *self.rng.pick(&m.n);
+        }
         let r = self.rng.below(100);
         if r < 60 {
             *self.rng.pick(F32S)
@@ -471,6 +582,10 @@ impl G {
         }
     }
     fn f64v(&mut self) -> f64 {
+        if self.rng.chance(1, 6) {
+            let m = self.magic.clone();
+            return *self.rng.pick(&m.n) as f64;
+        }
         let r = self.rng.below(100);
         if r < 60 {
             *self.rng.pick(F64S)
@@ -515,6 +630,10 @@ impl G {
                 3 => 0i64.into(),
                 4 => i64::MAX.into(),
                 5 => (self.rng.next() as i64).into(),
+                6 => {
+                    let m = self.magic.clone();
+                    (*self.rng.pick(&m.n) as i64).into()
+                }
                 _ => self.rng.range(-1000, 1000).into(),
             }),
             30..=39 => Value::Real(self.f64v()),
@@ -542,7 +661,15 @@ impl G {
         let mut d = Dictionary::new();
         let n = self.rng.below(max + 1);
         for _ in 0..n {
-            let k = if self.wild & 1 != 0 && self.rng.chance(1, 5) { self.rng.pick(KEYS_TRIM).to_string() } else { self.rng.pick(KEYS).to_string() };
+            let k = if self.wild & 1 != 0 && self.rng.chance(1, 5) {
+                self.rng.pick(KEYS_TRIM).to_string()
+            } else if self.rng.chance(1, 6) {
+                let m = self.magic.clone();
+                let t = self.rng.pick(&m.s).clone();
+                if edge_ws(&t) { "k1".to_string() } else { t }
+            } else {
+                self.rng.pick(KEYS).to_string()
+            };
             let v = self.pv(depth);
             d.insert(k, v);
         }
@@ -553,6 +680,13 @@ impl G {
         (0..n).map(|_| Dimension { name: self.attr_s(), uservalue: self.opt_f(), xvalue: self.opt_f(), yvalue: self.opt_f() }).collect()
     }
     fn name(&mut self) -> Name {
+        if self.rng.chance(1, 5) {
+            let m = self.magic.clone();
+            let t: &String = self.rng.pick(&m.s[..]);
+            if let Ok(n) = Name::new(t.as_str()) {
+                return n;
+            }
+        }
         let s: &str = *self.rng.pick(NAMES);
         Name::new(s).unwrap()
     }
@@ -768,7 +902,7 @@ fn l1_floats(rng: &mut Rng, n: usize) -> (u64, Vec<String>) {
         cnt += 1;
     }
     // plist dates (within the years 0000..9999); base64 is validated by the file comparison
-    let mut g = G { rng: rng.fork(), wild: 0, nan: false };
+    let mut g = G { magic: std::rc::Rc::new(Magic::load(None)), rng: rng.fork(), wild: 0, nan: false };
     for _ in 0..(n / 20).max(1000) {
         let t = g.date();
         let s = t.to_xml_format();
@@ -828,9 +962,10 @@ pub fn main(a: &Args) {
     }
     let n = if a.thorough() { 40_000 } else { 2_400 };
     let mut master = Rng::new(a.seed ^ 0xC18);
+    let magic = std::rc::Rc::new(Magic::load(a.extra.iter().position(|x| x == "--magic").and_then(|p| a.extra.get(p + 1))));
     for i in 0..n {
         let kind = master.below(100);
-        let mut g = G { rng: master.fork(), wild: if (60..75).contains(&kind) { [1u8, 1, 2, 2, 4, 4, 7, 3][(kind % 8) as usize] } else { 0 }, nan: kind % 10 == 7 };
+        let mut g = G { magic: magic.clone(), rng: master.fork(), wild: if (60..75).contains(&kind) { [1u8, 1, 2, 2, 4, 4, 7, 3][(kind % 8) as usize] } else { 0 }, nan: kind % 10 == 7 };
         let bad = if kind >= 75 {
             let mut b = 1u32 << g.rng.below(8);
             if g.rng.chance(1, 5) {
@@ -846,12 +981,34 @@ pub fn main(a: &Args) {
         lines.push_str(&rec.to_string());
         lines.push('\n');
     }
+    // the sweep: every magic string in every string field, every magic number in every number
+    let mut i = n;
+    let numbers: Vec<f32> = magic.n.clone();
+    for (k, m) in magic.s.iter().enumerate() {
+        let d = sweep_doc(m, numbers[k % numbers.len()]);
+        let mut rec = run_case(i, &d, &a.out, tmp.path());
+        rec["kind"] = json!("magic-sweep");
+        lines.push_str(&rec.to_string());
+        lines.push('\n');
+        i += 1;
+    }
+    for (k, x) in numbers.iter().enumerate() {
+        if k < magic.s.len() {
+            continue; // already used above
+        }
+        let d = sweep_doc(&magic.s[k % magic.s.len()], *x);
+        let mut rec = run_case(i, &d, &a.out, tmp.path());
+        rec["kind"] = json!("magic-sweep");
+        lines.push_str(&rec.to_string());
+        lines.push('\n');
+        i += 1;
+    }
     write_file(&a.out.join("cases.jsonl"), &lines);
     let (cnt, bad) = l1_floats(&mut master, if a.thorough() { 2_000_000 } else { 200_000 });
     // observation (outside the property): dates the XML form cannot express make save panic
     let mut far = DesignSpaceDocument::default();
     far.lib.insert("d".into(), Value::Date((SystemTime::UNIX_EPOCH + Duration::new(253_402_300_800, 0)).into()));
     let far_panics = catch(|| far.save(tmp.path().join("far.designspace"))).is_err();
-    let summary = json!({"cases": n, "l1_float_checks": cnt, "l1_float_failures": bad, "obs_year_10000_date_save_panics": far_panics});
+    let summary = json!({"cases": i, "magic_strings": magic.s.len(), "magic_numbers": magic.n.len(), "l1_float_checks": cnt, "l1_float_failures": bad, "obs_year_10000_date_save_panics": far_panics});
     write_file(&a.out.join("summary.json"), &summary.to_string());
 }
